@@ -70,27 +70,26 @@ Proof.
   { clear -Holds. induction Holds as [|x l Hx]; cbn [sum_raw]; [lia|]. destruct Hx. lia. }
   cbn [merge].
   assert (E1 : (usr old =? 0) = false) by (apply Z.eqb_neq; lia).
-  assert (E2 : (len =? 0) = false) by (apply Z.eqb_neq; lia).
-  rewrite E1, E2. cbn [orb].
-  assert (E3 : (len <? usr old) = false) by (apply Z.ltb_ge; lia). rewrite E3.
+  assert (E3 : (len <? usr old) = false) by (apply Z.ltb_ge; lia). rewrite E3, E1.
   destruct (linear_ok r val (usr old)) as [pt [Hpt Hok]]; [lia|]. rewrite Hpt.
   pose proof (ok_progress _ _ _ _ Hok) as Hp1. pose proof (ok_usr _ _ _ _ Hok) as Hp2.
   pose proof (ok_fields _ _ _ _ Hok) as Hp3.
-  assert (E4 : (cut pt <? cut old) = false) by (apply Z.ltb_ge; lia). rewrite E4.
+  assert (E4 : (cut pt <? cut old) = false) by (apply Z.ltb_ge; lia). rewrite E4, andb_false_r.
+  assert (E6 : (trim pt <? trim old) = false) by (apply Z.ltb_ge; lia). rewrite E6, andb_false_r.
   assert (Hnn : nn pt) by (split; lia).
   destruct (emit_sum acc pt Hacc Hnn) as [Hes Hen].
   assert (Hl' : zlen (zskip (raw pt) val) = len - raw pt) by (rewrite zlen_zskip; lia).
   destruct (Z.ltb_spec (raw pt) (raw old)) as [Hlt|Hge].
   - (* the old part is only partly used up *)
     rewrite !wrap16_small by lia.
-    destruct (IH (mkpart (raw old - raw pt) (usr old - raw pt) 0 (trim old)) olds
+    rewrite Ht. replace (if usr old - raw pt =? 0 then 0 else 0) with 0 by (destruct (usr old - raw pt =? 0); reflexivity).
+    destruct (IH (mkpart (raw old - raw pt) (usr old - raw pt) 0 0) olds
                  (zskip (raw pt) val) (len - raw pt) (emit acc pt)) as [ps [Hd Hs]]; auto.
     + unfold chunk. cbn [raw usr cut trim]. lia.
     + cbn [raw]. lia.
     + lia.
     + exists ps. split; [exact Hd|]. lia.
   - assert (E5 : (raw old <? raw pt) = false) by (apply Z.ltb_ge; lia). rewrite E5.
-    assert (E6 : (trim pt <? trim old) = false) by (apply Z.ltb_ge; lia). rewrite E6.
     destruct olds as [|o os].
     + eexists. split; [reflexivity|]. rewrite sum_raw_rev. cbn [sum_raw] in Hsum. lia.
     + inversion Holds as [|x l Ho Hos]; subst x l.
@@ -184,13 +183,12 @@ Proof.
     exfalso. subst val. unfold zskip in Hlen. replace (Z.to_nat (sum_raw g)) with 0%nat in Hlen by lia. cbn [skipn] in Hlen. lia. }
   cbn [merge].
   assert (E1 : (usr old =? 0) = false) by (apply Z.eqb_neq; lia).
-  assert (E2 : (len =? 0) = false) by (apply Z.eqb_neq; lia).
-  rewrite E1, E2. cbn [orb].
-  assert (E3 : (len <? usr old) = false) by (apply Z.ltb_ge; lia). rewrite E3.
+  assert (E3 : (len <? usr old) = false) by (apply Z.ltb_ge; lia). rewrite E3, E1.
   destruct (linear_ok r val (usr old)) as [pt [Hpt Hok]]; [lia|]. rewrite Hpt.
   pose proof (ok_progress _ _ _ _ Hok) as Hp1. pose proof (ok_usr _ _ _ _ Hok) as Hp2.
   pose proof (ok_fields _ _ _ _ Hok) as Hp3.
-  assert (E4 : (cut pt <? cut old) = false) by (apply Z.ltb_ge; lia). rewrite E4.
+  assert (E4 : (cut pt <? cut old) = false) by (apply Z.ltb_ge; lia). rewrite E4, andb_false_r.
+  assert (E6 : (trim pt <? trim old) = false) by (apply Z.ltb_ge; lia). rewrite E6, andb_false_r.
   assert (Hnn : nn pt) by (split; lia).
   destruct (emit_sum acc pt Hacc Hnn) as [Hes Hen].
   pose proof (emit_eqv acc pt g Hacc Hnn He) as He'.
@@ -205,13 +203,13 @@ Proof.
   { rewrite sum_raw_app. cbn [sum_raw]. lia. }
   destruct (Z.ltb_spec (raw pt) (raw old)) as [Hlt|Hge].
   - rewrite !wrap16_small by lia.
-    apply (IH (mkpart (raw old - raw pt) (usr old - raw pt) 0 (trim old)) olds
+    rewrite Ht. replace (if usr old - raw pt =? 0 then 0 else 0) with 0 by (destruct (usr old - raw pt =? 0); reflexivity).
+    apply (IH (mkpart (raw old - raw pt) (usr old - raw pt) 0 0) olds
               (zskip (raw pt) val) (len - raw pt) (emit acc pt) (g ++ [pt])); auto.
     + unfold chunk. cbn [raw usr cut trim]. lia.
     + cbn [raw]. lia.
     + lia.
   - assert (E5 : (raw old <? raw pt) = false) by (apply Z.ltb_ge; lia). rewrite E5.
-    assert (E6 : (trim pt <? trim old) = false) by (apply Z.ltb_ge; lia). rewrite E6.
     destruct olds as [|o os].
     + exists (rev (emit acc pt)), (g ++ [pt]). split; [reflexivity|]. split; [exact He'|]. split; [exact Hg'|].
       cbn [sum_raw] in Hsum. rewrite sum_raw_app. cbn [sum_raw]. lia.
